@@ -84,6 +84,8 @@ type respScript struct {
 	fault   string // "" | hang-headers | rst-after-headers | short-body | garbage | stall-mid-body | slow-body
 	holdFor time.Duration
 	closeAfter bool
+	trailer []hdrKV // chunked framing only: announced in Trailer and sent after the last chunk
+	headWrittenAt time.Duration // observed: when the backend wrote the response head
 }
 
 type seenReq struct {
@@ -117,6 +119,8 @@ type gotResp struct {
 	chunked bool
 	closed  bool
 	uncompressed bool
+	headAt  time.Duration // when the final status line and headers had been read
+	trailer http.Header
 }
 
 type exchange struct {
@@ -458,6 +462,13 @@ func (b *sBackend) play(c net.Conn, req *http.Request, ex *exchange) bool {
 	case "chunked":
 		if !bodyless {
 			hb.WriteString("Transfer-Encoding: chunked\r\n")
+			if len(rs.trailer) > 0 {
+				var names []string
+				for _, kv := range rs.trailer {
+					names = append(names, kv.K)
+				}
+				hb.WriteString("Trailer: " + strings.Join(names, ", ") + "\r\n")
+			}
 		}
 	case "close":
 		hb.WriteString("Connection: close\r\n")
@@ -469,6 +480,9 @@ func (b *sBackend) play(c net.Conn, req *http.Request, ex *exchange) bool {
 	if _, err := io.WriteString(c, hb.String()); err != nil {
 		return false
 	}
+	env.mu.Lock()
+	rs.headWrittenAt = env.x.Now()
+	env.mu.Unlock()
 	if rs.fault == "rst-after-headers" {
 		if sc != nil {
 			env.net.Reset(sc)
@@ -531,7 +545,11 @@ func (b *sBackend) play(c net.Conn, req *http.Request, ex *exchange) bool {
 		return false
 	}
 	if rs.framing == "chunked" {
-		if _, err := io.WriteString(c, "0\r\n\r\n"); err != nil {
+		tail := "0\r\n"
+		for _, kv := range rs.trailer {
+			tail += kv.K + ": " + kv.V + "\r\n"
+		}
+		if _, err := io.WriteString(c, tail+"\r\n"); err != nil {
 			return false
 		}
 	}
@@ -694,6 +712,7 @@ func (c *sClient) runOnce(ex *exchange) {
 			continue
 		}
 		got.status, got.proto, got.hdr = resp.StatusCode, resp.Proto, resp.Header.Clone()
+		got.headAt = env.x.Now()
 		got.clen = resp.ContentLength
 		got.chunked = len(resp.TransferEncoding) > 0 && resp.TransferEncoding[0] == "chunked"
 		got.closed = resp.Close
@@ -711,6 +730,7 @@ func (c *sClient) runOnce(ex *exchange) {
 				}
 			}
 			if rerr == io.EOF {
+				got.trailer = resp.Trailer.Clone()
 				break
 			}
 			if rerr != nil {
